@@ -2756,7 +2756,9 @@ fn gen_c13x(ch: &mut Choices) -> Plan {
 pub const C06L_SENDS: usize = 65_536 + 64;
 
 fn gen_c06l(ch: &mut Choices) -> Plan {
-    let role = pick_role(ch);
+    // (first draw = role: batch::mode_of makes it the run index modulo 4, so that the two runs of the quick
+    // tier are one MQTT 5 and one MQTT 3.1.1 endpoint)
+    let role = C16X_ROLES[ch.choose(4) as usize];
     let mut plan = base_plan("C06L", role, ch);
     plan.cut = Cut::All;
     plan.p_ext = *ch.pick(&[0u32, 150]);
